@@ -171,22 +171,22 @@ BitmapVars == << <<"bitmap-unknown-bits", "all", M64>>, <<"bitmap-unknown-bits",
                  <<"bitmap-unknown-bits", "known-all", <<255, 7, 0, 0, 0, 0, 0, 0>>>>, <<"bitmap-unknown-bits", "none", Zeros(8)>> >>
 ConstVars(bs) == << <<"constant-changed", "zeros", Zeros(Len(bs))>>, <<"constant-changed", "ones", Ones(Len(bs))>>, <<"constant-changed", "+1", [i \in 1..Len(bs) |-> (bs[i] + 1) % 256]>> >>
 PolicyVars == [i \in 1..Len(Blobs) |-> <<Blobs[i][1], Blobs[i][2], BlobRef(i)>>]
-\* m a mark of an encoding b
+\* m a mark of an encoding b: what replaces it.  Replacements that do not depend on the mark are printed once (FixedVars).
+KindName(m) == IF m[3] = "u64" /\ m[6] = "LeafIndex" THEN "leafidx" ELSE IF m[3] = "pres" THEN (IF m[4] = 0 THEN "pres0" ELSE "pres1") ELSE m[3]
+PresVars(x) == << <<"presence-invalid", "2", <<2>>>>, <<"presence-invalid", "255", <<255>>>>, <<"presence-flipped", "flip", <<1 - x>>>> >>
+FixedVars == [u64 |-> U64Vars2, leafidx |-> U64Vars2 \o SmallU64,
+          bool |-> << <<"bool-invalid", "2", <<2>>>>, <<"bool-invalid", "255", <<255>>>> >>,
+          pres0 |-> PresVars(0), pres1 |-> PresVars(1),
+          u8 |-> << <<"u8-extreme", "255", <<255>>>>, <<"u8-extreme", "0", <<0>>>> >>,
+          hint |-> HintVars, spec |-> SpecVars, bitmap |-> BitmapVars, policy |-> PolicyVars]
 MarkVars(m, b) ==
   CASE m[3] = "len" -> LenVars(m[4], Len(b) - (m[1] + m[2]))
     [] m[3] = "cnt8" -> CntVars(m[4])
-    [] m[3] = "bool" -> << <<"bool-invalid", "2", <<2>>>>, <<"bool-invalid", "255", <<255>>>> >>
-    [] m[3] = "pres" -> << <<"presence-invalid", "2", <<2>>>>, <<"presence-invalid", "255", <<255>>>>, <<"presence-flipped", "flip", <<1 - m[4]>>>> >>
     [] m[3] = "tag" -> TagVars(b[m[1] + 1], m[4])
     [] m[3] = "cur1" -> CurVars(SubSeq(b, m[1] + 9, m[1] + m[2]))
-    [] m[3] = "u64" -> U64Vars2 \o (IF m[6] = "LeafIndex" THEN SmallU64 ELSE <<>>)
-    [] m[3] = "u8" -> << <<"u8-extreme", "255", <<255>>>>, <<"u8-extreme", "0", <<0>>>> >>
-    [] m[3] = "hint" -> HintVars
     [] m[3] = "kind" -> KindVars(m[4])
-    [] m[3] = "spec" -> SpecVars
-    [] m[3] = "bitmap" -> BitmapVars
     [] m[3] = "const" -> ConstVars(SubSeq(b, m[1] + 1, m[1] + m[2]))
-    [] m[3] = "policy" -> PolicyVars
+    [] OTHER -> <<>>          \* see FixedVars[KindName(m)]
 Classes == {"len-inflated", "len-deflated", "count-inflated", "count-deflated", "bool-invalid", "presence-invalid", "presence-flipped", "tag-unknown",
             "currency-overlong", "currency-leading-zero", "u64-extreme", "leaf-index", "u8-extreme", "multiproof-hint", "outline-kind", "specifier-variant",
             "bitmap-unknown-bits", "constant-changed", "policy-depth", "policy-deep-wide", "policy-arity", "policy-opcode", "policy-version",
@@ -199,10 +199,11 @@ Tails == << <<"extended", "+00", <<0>>>>, <<"extended", "+ff", <<255>>>>, <<"ext
 AllCounts(ms) == SelectSeq(ms, LAMBDA m : m[3] = "cnt8")
 
 \* ---- emission ---------------------------------------------------------------------
-\* SHAPE: type, index, bytes, cuts, tails, marks: one entry per mark <<offset, width, kind, owner, path, variants>>, variant = <<class, name, bytes | blob reference>>
+\* SHAPE: type, index, bytes, cuts, marks: one entry per mark <<offset, width, kind, owner, path, variants>>, variant = <<class, name, bytes | blob reference>>
+\* (variants empty: those of FixedVars[kind]);  counts: offsets of all one-byte counts
 ShapeJson(name, k, x) ==
-  ToJson([type |-> name, shape |-> k, bytes |-> x.b, cuts |-> Cuts(x.b, x.m), tails |-> Tails,
-          marks |-> [i \in 1..Len(x.m) |-> <<x.m[i][1], x.m[i][2], x.m[i][3], x.m[i][5], x.m[i][6], MarkVars(x.m[i], x.b)>>],
+  ToJson([type |-> name, shape |-> k, bytes |-> x.b, cuts |-> Cuts(x.b, x.m),
+          marks |-> [i \in 1..Len(x.m) |-> <<x.m[i][1], x.m[i][2], KindName(x.m[i]), x.m[i][5], x.m[i][6], MarkVars(x.m[i], x.b)>>],
           counts |-> [i \in 1..Len(AllCounts(x.m)) |-> AllCounts(x.m)[i][1]]])
 EmitShape(name, k, v, x) == /\ Assert(x.b = Enc(Schema[name], v), <<"annotated encoding differs from Wire!Enc", name, k>>)
                             /\ PrintT("@@SHAPE " \o ShapeJson(name, k, x))
@@ -260,9 +261,12 @@ MInit == /\ ty = "" /\ done = FALSE
          /\ PrintT("@@JSONCAT " \o ToJson(JsonCatalogue))
          /\ PrintT("@@TEXTCAT " \o ToJson(TextCatalogue))
          /\ PrintT("@@CLASSES " \o ToJson(Classes))
+         /\ PrintT("@@FIXED " \o ToJson(FixedVars))
+         /\ PrintT("@@TAILS " \o ToJson(Tails))
 MNext == \/ /\ ty = "" /\ ty' \in Only /\ done' = FALSE
          \/ /\ ty # "" /\ ~done
             /\ EmitShapes(ty, Shapes(ty))
             /\ done' = TRUE /\ UNCHANGED ty
+AllLines == DOMAIN Schema
 MSpec == MInit /\ [][MNext]_<<ty, done>>
 =============================================================================
